@@ -66,6 +66,9 @@ def verify(name, suite=False, tier="quick", checks=None):
         os.makedirs(os.path.join(wt, "SEED"), exist_ok=True)
         demo = os.path.join(wt, "SEED", "demo.py")
         shutil.copy(os.path.join(d, "demo.py"), demo)
+        for extra in os.listdir(d):      # helper modules the demonstration imports (kept beside it)
+            if extra.endswith(".py") and extra not in ("demo.py", "existing_defect.py"):
+                shutil.copy(os.path.join(d, extra), os.path.join(wt, "SEED", extra))
         rc0, out0 = run_demo(wt, demo)
         ap = sh(["git", "-C", wt, "apply", os.path.join(d, "patch.diff")])
         if ap.returncode != 0:
